@@ -82,6 +82,7 @@ _verdict(abs(S - exact) > 1e-9, series=float(S), exact=float(exact))
 
 def main():
     chk = Check(PID)
+    chk.default_replay = _replay_general
     snp.EXACT_SQRT[0] = True
     import hiten.algorithms.hamiltonian.hamiltonian as hh
     import hiten.algorithms.hamiltonian.transforms as tf
@@ -320,6 +321,42 @@ p = System.from_bodies("earth", "moon").get_libration_point(%d)
 H = _build_physical_hamiltonian_triangular(p, 3)
 _verdict(float(np.max(np.abs(H[1]))) > 1e-12, degree_1_block=[float(v.real) for v in H[1]])
 ''' % idx
+
+
+def _replay_general():
+    """General confirmation on the compiled build: at every libration point the vector field of the polynomial Hamiltonian, pushed
+    through the local->synodic map, equals the CR3BP field up to the truncation error, which must shrink with the radius at the
+    rate of the first omitted degree (checked for two truncation degrees, an odd and an even one)."""
+    return '''
+from hiten.system import System
+from hiten.algorithms.hamiltonian.transforms import _local2synodic_collinear, _local2synodic_triangular
+from hiten.algorithms.dynamics.rtbp import _crtbp_accel
+from hiten.algorithms.polynomial.operations import _polynomial_evaluate, _polynomial_jacobian
+from hiten.algorithms.polynomial.base import _create_encode_dict_from_clmo, _init_index_tables
+from hiten.algorithms.hamiltonian.hamiltonian import _build_physical_hamiltonian_collinear, _build_physical_hamiltonian_triangular
+s = System.from_bodies("earth", "moon"); bad = {}
+c0 = np.array([2.0, -1.0, 1.5, 1.0, -2.0, 1.0])
+for k in (1, 2, 3, 4, 5):
+    p = s.get_libration_point(k); l2s = _local2synodic_collinear if k <= 3 else _local2synodic_triangular
+    for N in (5, 8):
+        psi, clmo = _init_index_tables(N); enc = _create_encode_dict_from_clmo(clmo)
+        polyH = _build_physical_hamiltonian_collinear(p, N) if k <= 3 else _build_physical_hamiltonian_triangular(p, N)
+        jac = _polynomial_jacobian(polyH, N, psi, clmo, enc)
+        errs = []
+        for r in ((2e-2, 1e-2) if N == 5 else (8e-2, 4e-2)):
+            c = r * c0
+            g = np.array([_polynomial_evaluate(jac[i], c.astype(np.complex128), clmo).real for i in range(6)])
+            cdot = np.concatenate([g[3:], -g[:3]]); h = 1e-3; D = np.zeros((6, 6))      # the map is affine: any h is exact
+            for j in range(6):
+                e = np.zeros(6); e[j] = h
+                D[:, j] = (l2s(p, c + e) - l2s(p, c - e)) / (2 * h)
+            errs.append(float(np.max(np.abs(D @ cdot - _crtbp_accel(l2s(p, c), s.mu)))))
+        order = float(np.log2(errs[0] / max(errs[1], 1e-300)))
+        # the field of a degree-N Hamiltonian is exact to degree N-1: the error is O(r^N)
+        if errs[1] > 1e-11 and order < N - 0.7: bad["L%d_degree_%d" % (k, N)] = "field error %.2e -> %.2e when the radius is halved: order %.2f instead of %d" % (errs[0], errs[1], order, N)
+        elif errs[1] > 1e-4: bad["L%d_degree_%d" % (k, N)] = "field error %.2e at the smaller radius" % errs[1]
+_verdict(bool(bad), **bad)
+'''
 
 
 def _replay_map(pname):
